@@ -1,7 +1,7 @@
 \* Exhaustive, thorough tier, state machine: two followers, every ISR / MinISR combination, log end
 \* <= 4, boundaries 1..4 in every order (regressions included), bounded trims, both stores; one
 \* representative read of each kind per state (the read argument space is MC_reads.cfg).
-\* Measured: 952,425 distinct states, 27,455,397 transitions, depth 10 (7 min at load 50).
+\* Measured: 952,425 distinct states, about 29 million transitions, depth 10 (7 min at load 50).
 SPECIFICATION Spec
 CONSTANTS
   Followers = {2, 3}
